@@ -161,8 +161,9 @@ PROPS = {
         closure=dict(quick=[4, 5], thorough=[4, 5, 6]),
         suites=[dict(name="d6", cfg="matrix", keys=["res", "ops"]),
                 dict(name="d5w", cfg="matrix", keys=["res", "ops"]),
-                dict(name="d5r", cfg="matrix", keys=["res", "ops"])],
-        rule="ring histories (d6), crash-inside-every-operation scenarios (d5w) and clean reboots of live sessions at "
+                dict(name="d5r", cfg="matrix", keys=["res", "ops"]),
+                dict(name="d6", cfg="naive", keys=["res", "ops"], driver_args=["--naive"])],
+        rule="ring histories (d6; also on the single-erasure back-end), crash-inside-every-operation scenarios (d5w) and clean reboots of live sessions at "
              "sampled positions incl. wrapped pairs and exact-fit geometries (d5r); after every try_recover / "
              "cancel_all the oracle checks the parsed headers (only the returned pair in progress / nothing in "
              "progress), that no confirmed / rejected / ack-pending slot was touched, that the returned pair was written "
